@@ -61,6 +61,45 @@ class PyEndpoint:
                       errclass="%s@%s" % (res.get("etype", "?"), res.get("where", "?")))
 
 
+_NUMERIC = {"bool", "int8", "uint8", "int16", "uint16", "int32", "uint32", "int64", "uint64", "size", "float32", "float64",
+            "complexfloat32", "complexfloat64"}
+
+
+def py_triggers(m: mut.Mut, proto: Proto) -> str:
+    """Structural predicates (trigger half of known-finding identities) for Python endpoints."""
+    c = m.codec
+    seen, hit = set(), [False]
+
+    def walk(t):
+        t = c.res(t)
+        key = repr(t)
+        if key in seen:
+            return
+        seen.add(key)
+        if isinstance(t, A):
+            it = c.res(t.item)
+            if not (isinstance(it, P) and it.name in _NUMERIC):
+                hit[0] = True
+        if isinstance(t, N):
+            d, _ = c.env.lookup(t)
+            if isinstance(d, Rec):
+                for _, ft in record_fields(c.env, t):
+                    walk(ft)
+            return
+        if isinstance(t, U):
+            for _, x in t.cases:
+                walk(x)
+        elif isinstance(t, (V, A, S)):
+            walk(t.item)
+        elif isinstance(t, M):
+            walk(t.key)
+            walk(t.value)
+
+    for _, stp in proto.steps:
+        walk(c.fq(stp))
+    return "[ndarray-compound]" if hit[0] else ""
+
+
 def decode_output(m: mut.Mut, proto: Proto, fmt: str, out: bytes) -> dict:
     """-> dict(values, problems[list of (kind, text)])"""
     c = m.codec
@@ -102,7 +141,8 @@ def judge(ctx, m: mut.Mut, proto: Proto, vals, data: bytes, r: Result, ep_name: 
     elif r.sig is not None:
         sig, msg = "crash:%s:%s" % (ep_name, r.errclass), "died with signal %s: %s" % (r.sig, r.stderr[-800:])
     elif r.rc != 0:
-        sig, msg = "reject:%s:%s" % (ep_name, r.errclass), "valid stream rejected rc=%s: %s" % (r.rc, r.stderr[-600:])
+        trig = py_triggers(m, proto) if ep_name.startswith("py") else ""
+        sig, msg = "reject:%s:%s%s" % (ep_name, r.errclass, trig), "valid stream rejected rc=%s: %s" % (r.rc, r.stderr[-600:])
     else:
         try:
             d = decode_output(m, proto, outfmt, r.out)
